@@ -98,10 +98,18 @@ struct HistGen {
     deletes: u64,
     creates_after_delete: u64,
     retype: u64,
+    /// hub histories: the hub uids, the spoke uids, deletes of a hub relationship that is not
+    /// the last one of the hub's (target-ordered) adjacency list
+    hubs: Vec<i64>,
+    spokes: Vec<i64>,
+    nonlast_deletes: u64,
 }
 
 fn gen_history(r: &mut Rng) -> (Vec<Op>, HistGen) {
-    let mut g = HistGen { next_uid: 1, next_eid: 1, live: vec![], edges: vec![], deletes: 0, creates_after_delete: 0, retype: 0 };
+    let mut g = HistGen { next_uid: 1, next_eid: 1, live: vec![], edges: vec![], deletes: 0, creates_after_delete: 0, retype: 0, hubs: vec![], spokes: vec![], nonlast_deletes: 0 };
+    if r.chance(2, 5) {
+        return gen_hub_history(r, g);
+    }
     let mixed = r.chance(3, 4);
     let n = r.range(6, 40);
     let mut ops = Vec::new();
@@ -157,6 +165,135 @@ fn gen_history(r: &mut Rng) -> (Vec<Op>, HistGen) {
             ops.push(Op::DeleteEdge { eid: e.0 });
         } else if !g.edges.is_empty() {
             ops.push(Op::SetEdgeProp { eid: r.pick(&g.edges).0, w: rand_val(r, false) });
+        }
+    }
+    (ops, g)
+}
+
+
+/// A hub history: one or two :L0 hubs with 3-8 buffered outgoing :R relationships to :L1 spokes
+/// (created in shuffled target order), :S relationships among the spokes, then deletes of the
+/// first / middle relationships of a hub (and of some incoming ones), more creates, sometimes a
+/// spoke delete.  What a point probe (is there a relationship a -> b?) sees after such deletes
+/// must not depend on whether the relationships sit in the write buffer or the compacted tier.
+fn gen_hub_history(r: &mut Rng, mut g: HistGen) -> (Vec<Op>, HistGen) {
+    let mut ops = Vec::new();
+    // two thirds of the hub histories have neither parallel relationships nor self-loops, so
+    // that no recorded graph-native finding can explain a disagreement on them
+    let clean = r.chance(2, 3);
+    let n_hubs = r.range(1, 2);
+    let n_spokes = r.range(4, 9);
+    let mut node = |g: &mut HistGen, ops: &mut Vec<Op>, labels: Vec<usize>, props: Vec<(usize, PV)>| -> i64 {
+        let uid = g.next_uid;
+        g.next_uid += 1;
+        g.live.push(uid);
+        ops.push(Op::CreateNode { uid, labels, props });
+        uid
+    };
+    for _ in 0..n_hubs {
+        let u = node(&mut g, &mut ops, vec![0], vec![(0, PV::String("h".to_string())), (1, PV::Integer(0))]);
+        g.hubs.push(u);
+    }
+    for _ in 0..n_spokes {
+        let labels = if r.chance(1, 4) { vec![1, 2] } else { vec![1] };
+        let u = node(&mut g, &mut ops, labels, vec![(0, PV::Integer(r.below(6) as i64))]);
+        g.spokes.push(u);
+    }
+    let mut edge = |g: &mut HistGen, ops: &mut Vec<Op>, src: i64, dst: i64, ty: usize, r: &mut Rng| {
+        let eid = g.next_eid;
+        g.next_eid += 1;
+        g.edges.push((eid, src, dst));
+        ops.push(Op::CreateEdge { eid, src, dst, ty, w: PV::Integer(r.below(5) as i64) });
+    };
+    // hub -> spokes, in shuffled order
+    for hi in 0..g.hubs.len() {
+        let hub = g.hubs[hi];
+        let mut targets = g.spokes.clone();
+        for i in (1..targets.len()).rev() {
+            let j = r.below(i as u64 + 1) as usize;
+            targets.swap(i, j);
+        }
+        let k = r.range(3, 8).min(targets.len() as u64) as usize;
+        for t in targets.into_iter().take(k) {
+            edge(&mut g, &mut ops, hub, t, 0, r);
+        }
+        if !clean && r.chance(1, 2) {
+            let t = *r.pick(&g.spokes);
+            edge(&mut g, &mut ops, hub, t, 0, r); // a parallel relationship
+        }
+    }
+    // spokes among themselves and back to the hubs
+    for _ in 0..r.range(3, 9) {
+        let (a, b) = (*r.pick(&g.spokes), *r.pick(&g.spokes));
+        if clean && (a == b || g.edges.iter().any(|e| e.1 == a && e.2 == b)) {
+            continue;
+        }
+        edge(&mut g, &mut ops, a, b, 1, r);
+    }
+    for _ in 0..r.range(0, 4) {
+        let (a, b) = (*r.pick(&g.spokes), *r.pick(&g.hubs));
+        if clean && g.edges.iter().any(|e| e.1 == a && e.2 == b) {
+            continue;
+        }
+        edge(&mut g, &mut ops, a, b, 0, r);
+    }
+    // deletes of first / middle entries
+    for _ in 0..r.range(1, 3) {
+        let hub = *r.pick(&g.hubs);
+        let incoming = r.chance(1, 4);
+        let mut list: Vec<(i64, i64, i64)> =
+            g.edges.iter().filter(|e| if incoming { e.2 == hub } else { e.1 == hub }).cloned().collect();
+        list.sort_by_key(|e| if incoming { e.1 } else { e.2 });
+        if list.len() >= 3 {
+            let pos = if r.chance(1, 2) { 0 } else { r.below(list.len() as u64 - 1) as usize };
+            let e = list[pos];
+            g.edges.retain(|x| x.0 != e.0);
+            g.deletes += 1;
+            g.nonlast_deletes += 1;
+            ops.push(Op::DeleteEdge { eid: e.0 });
+        } else if let Some(e) = list.first().cloned() {
+            g.edges.retain(|x| x.0 != e.0);
+            g.deletes += 1;
+            ops.push(Op::DeleteEdge { eid: e.0 });
+        }
+    }
+    // a few more operations
+    for _ in 0..r.range(0, 5) {
+        match r.below(5) {
+            0 => {
+                let (a, b) = (*r.pick(&g.hubs), *r.pick(&g.spokes));
+                if !(clean && g.edges.iter().any(|e| e.1 == a && e.2 == b)) {
+                    g.creates_after_delete += 1;
+                    edge(&mut g, &mut ops, a, b, 0, r);
+                }
+            }
+            1 => {
+                let (a, b) = (*r.pick(&g.spokes), *r.pick(&g.spokes));
+                if !(clean && (a == b || g.edges.iter().any(|e| e.1 == a && e.2 == b))) {
+                    g.creates_after_delete += 1;
+                    edge(&mut g, &mut ops, a, b, 1, r);
+                }
+            }
+            2 if g.spokes.len() > 3 => {
+                let i = r.below(g.spokes.len() as u64) as usize;
+                let uid = g.spokes.remove(i);
+                g.live.retain(|x| *x != uid);
+                g.edges.retain(|e| e.1 != uid && e.2 != uid);
+                g.deletes += 1;
+                ops.push(Op::DeleteNode { uid });
+            }
+            3 => {
+                g.retype += 1;
+                ops.push(Op::SetProp { uid: *r.pick(&g.spokes), key: 0, val: PV::Integer(r.below(6) as i64) });
+            }
+            _ => {
+                if !g.edges.is_empty() {
+                    let i = r.below(g.edges.len() as u64) as usize;
+                    let e = g.edges.remove(i);
+                    g.deletes += 1;
+                    ops.push(Op::DeleteEdge { eid: e.0 });
+                }
+            }
         }
     }
     (ops, g)
@@ -306,7 +443,7 @@ fn flip(op: &str) -> &'static str {
     }
 }
 
-fn gen_query(r: &mut Rng, qi: u64) -> Query {
+fn gen_query(r: &mut Rng, qi: u64, g: &HistGen) -> Query {
     let l = r.below(3) as usize;
     let k = r.below(2) as usize;
     let (ops, oi) = *r.pick(&OPS);
@@ -331,7 +468,23 @@ fn gen_query(r: &mut Rng, qi: u64) -> Query {
     let ty = TYPES[r.below(2) as usize];
     let mut model = None;
     let mut adj = false;
-    let t = if qi % 8 == 0 { 0 } else { r.below(17) };
+    let hub_hist = !g.hubs.is_empty();
+    let t = if hub_hist && qi % 2 == 1 {
+        17 + r.below(8)
+    } else if qi % 8 == 0 {
+        0
+    } else {
+        let width = if r.chance(1, 6) { 25 } else { 17 };
+        r.below(width)
+    };
+    // two live nodes for the point-probe shapes: in a hub history a hub and a spoke
+    let (px, py) = if hub_hist && r.chance(4, 5) {
+        (*r.pick(&g.hubs), *r.pick(&g.spokes))
+    } else if !g.live.is_empty() {
+        (*r.pick(&g.live), *r.pick(&g.live))
+    } else {
+        (1, 1)
+    };
     let text = match t {
         0 | 1 => {
             if let Some(o) = oi {
@@ -373,7 +526,44 @@ fn gen_query(r: &mut Rng, qi: u64) -> Query {
             adj = true;
             format!("MATCH (n:{} {{{}: {}}})-[r]->(m:{}) WHERE m.{} >= {} RETURN n.uid AS a, r.w AS b, m.uid AS c", ll, kk, b, LABELS[(l + 2) % 3], k2, b2)
         }
-        _ => format!("MATCH (n:{}) WHERE n.{} {} {} RETURN id(n) AS a, n.{} AS b", ll, kk, ops, b, k2),
+        16 => format!("MATCH (n:{}) WHERE n.{} {} {} RETURN id(n) AS a, n.{} AS b", ll, kk, ops, b, k2),
+        // ---- shapes that close a cycle or bind both endpoints before the relationship ----
+        17 => {
+            adj = true;
+            "MATCH (b:L1)-[:S]->(c:L1), (a:L0)-[:R]->(b), (a)-[:R]->(c) WHERE a.x = 'h' AND c.x >= 0 RETURN a.uid AS a, b.uid AS b, c.uid AS c".to_string()
+        }
+        18 => {
+            adj = true;
+            "MATCH (a:L0)-[:R]->(b), (a)-[:R]->(c), (b)-[:S]->(c) RETURN a.uid AS a, b.uid AS b, c.uid AS c".to_string()
+        }
+        19 => {
+            adj = true;
+            "MATCH (a:L0), (b:L1) MATCH (a)-[r:R]->(b) RETURN a.uid AS a, r.eid AS b, b.uid AS c".to_string()
+        }
+        20 => {
+            adj = true;
+            format!("MATCH (a {{uid: {}}}), (b {{uid: {}}}) MATCH (a)-[r]->(b) RETURN r.eid AS a", px, py)
+        }
+        21 => {
+            adj = true;
+            "MATCH (a:L0)-[:R]->(b)-[:S]->(c)<-[:R]-(a) RETURN a.uid AS a, b.uid AS b, c.uid AS c".to_string()
+        }
+        22 => {
+            adj = true;
+            format!(
+                "MATCH (a:L0)-[:R]->(b) MATCH (c:L1)-[:S]->(b) MATCH (a)-[:R]->(c) WHERE c.x {} {} RETURN a.uid AS a, b.uid AS b, c.uid AS c",
+                if r.chance(1, 2) { ">=" } else { "<" },
+                r.below(5)
+            )
+        }
+        23 => {
+            adj = true;
+            format!("MATCH (a {{uid: {}}})-[r:R]->(b {{uid: {}}}) RETURN count(r) AS a", px, py)
+        }
+        _ => {
+            adj = true;
+            "MATCH (a:L0)-[:R]->(b), (b)-[:R]->(a) RETURN a.uid AS a, b.uid AS b".to_string()
+        }
     };
     Query { text, params, model, uses_adjacency: adj, template: t }
 }
@@ -487,6 +677,17 @@ fn witnesses() -> Vec<(&'static str, Vec<&'static str>, &'static str)> {
             "MATCH (a)-[r1]->(b)-[r2]->(c) RETURN a.uid AS a, r1.eid AS b, r2.eid AS c",
         ),
         (
+            "native_expand_into_parallel",
+            vec![
+                "CREATE (:L0 {uid: 1})",
+                "CREATE (:L1 {uid: 2})",
+                "MATCH (a {uid: 1}), (b {uid: 2}) CREATE (a)-[:R {eid: 1}]->(b)",
+                "MATCH (a {uid: 1}), (b {uid: 2}) CREATE (b)-[:R {eid: 2}]->(a)",
+                "MATCH (a {uid: 1}), (b {uid: 2}) CREATE (b)-[:R {eid: 3}]->(a)",
+            ],
+            "MATCH (a:L0)-[:R]->(b), (b)-[:R]->(a) RETURN a.uid AS a, b.uid AS b",
+        ),
+        (
             "native_expand_label",
             vec![
                 "CREATE (:L1 {uid: 1})",
@@ -528,19 +729,25 @@ fn main() {
                 midway}; 8 generated read queries per history (single-node comparisons with literal or parameter bounds of every \
                 type, reversed operands, inline properties, conjunctions, OR, multi-label, expansions in both directions, \
                 two-hop, aggregates, id()) each run on every store under {legacy, graph-native} x {parallel filter on, off}: \
-                36 bags per query must be equal, and equal to the bag a child process computes; for the single-node comparisons \
+                36 bags per query must be equal, and equal to the bag a child process computes; 2/5 of the histories are hub histories \
+                (3-8 buffered out-relationships per hub in shuffled target order, deletes of first/middle entries, 2/3 of them free \
+                of parallel relationships and self-loops) whose queries half the time close a cycle or bind both endpoints first \
+                (triangles, MATCH (a),(b) MATCH (a)-[r]->(b), point probes), followed by a relationship MERGE on all nine twin \
+                stores with the relationship counts compared; for the single-node comparisons \
                 the labelled nodes, both answers and PropertyIndex::candidates are checked against the model. Non-trivial = at \
                 least one configuration returned a row; distinct by (history, query)."
         .to_string();
     let n_hist = if args.thorough { 2500 } else { 150 };
     let per_hist = 8u64;
+    // 8 read queries + 1 relationship-MERGE case
+    let cases_per_hist = per_hist + 1;
     let mut child_lines: Vec<String> = Vec::new();
     let mut parent_digests: BTreeMap<(u64, u64), String> = BTreeMap::new();
 
     for h in 0..n_hist {
         let mut r = Rng::for_case(args.seed, h);
         let (ops, g) = gen_history(&mut r);
-        let queries: Vec<Query> = (0..per_hist).map(|qi| gen_query(&mut r, qi)).collect();
+        let queries: Vec<Query> = (0..per_hist).map(|qi| gen_query(&mut r, qi, &g)).collect();
         if let Some(_) = &child_out {
             // child: one configuration only (index-before, compacted-at-end, legacy, sequential)
             let (store, _) = build(&ops, 1, 1);
@@ -550,15 +757,21 @@ fn main() {
             continue;
         }
         let base = out.next_index();
-        let wanted: Vec<bool> = (0..per_hist).map(|qi| out.wants(base + qi)).collect();
+        let wanted: Vec<bool> = (0..cases_per_hist).map(|qi| out.wants(base + qi)).collect();
         if !wanted.iter().any(|w| *w) {
-            for _ in 0..per_hist {
+            for _ in 0..cases_per_hist {
                 out.skip();
             }
             continue;
         }
-        let stores: Vec<(GraphStore, Ids)> = (0..9).map(|i| build(&ops, (i / 3) as u8, (i % 3) as u8)).collect();
+        let mut stores: Vec<(GraphStore, Ids)> = (0..9).map(|i| build(&ops, (i / 3) as u8, (i % 3) as u8)).collect();
         out.count("histories");
+        if !g.hubs.is_empty() {
+            out.count("histories_hub");
+        }
+        if g.nonlast_deletes > 0 {
+            out.count("histories_hub_nonlast_delete");
+        }
         if g.deletes > 0 {
             out.count("histories_with_delete");
         }
@@ -569,6 +782,14 @@ fn main() {
             out.count("histories_with_property_change");
         }
         let hist_text = format!("{:?}", ops);
+        let has_loop = g.edges.iter().any(|e| e.1 == e.2);
+        let has_parallel = g.edges.iter().enumerate().any(|(i, e)| g.edges[..i].iter().any(|f| f.1 == e.1 && f.2 == e.2));
+        if !g.hubs.is_empty() && !has_loop && !has_parallel {
+            out.count("histories_hub_clean");
+            if g.nonlast_deletes > 0 {
+                out.count("histories_hub_clean_nonlast_delete");
+            }
+        }
         for (qi, q) in queries.iter().enumerate() {
             if !wanted[qi] {
                 out.skip();
@@ -649,22 +870,63 @@ fn main() {
                     eprintln!("  {:70} {}", config_name(c), digest(&results[c]));
                 }
             }
+            if q.template >= 17 && !has_loop && !has_parallel {
+                out.count("queries_cycle_shapes_on_clean_graph");
+            }
+            if q.template >= 17 {
+                out.count("queries_cycle_shapes");
+                if nonempty {
+                    out.count("queries_cycle_shapes_with_rows");
+                }
+            }
             if let Some(c) = bad {
                 // configurations c with (c / 2) % 2 == 0 use the legacy planner
                 let legacy_agree = (0..CONFIGS).filter(|c| (c / 2) % 2 == 0).all(|c| digest(&results[c]) == d0);
-                let class = if legacy_agree { native_class(q.template) } else { None };
+                let dn = digest(&results[2]);
+                let native_agree = (0..CONFIGS).filter(|c| (c / 2) % 2 == 1).all(|c| digest(&results[c]) == dn);
+                // a recorded graph-native finding explains a disagreement only when the legacy
+                // configurations agree; for the cycle-closing shapes additionally only when the
+                // graph-native configurations agree with one another (index / tier / parallel
+                // dependence inside one planner is never a known finding there)
+                let class = if !legacy_agree {
+                    None
+                } else if q.template >= 17 {
+                    // ExpandInto looks at the first relationship between a bound pair only:
+                    // with parallel relationships it loses multiplicity and, together with
+                    // relationship uniqueness, its answer follows the order of the adjacency
+                    // list; a self-loop lets one relationship serve two pattern relationships.
+                    // Without either in the final graph nothing recorded explains a difference.
+                    if has_parallel {
+                        Some("native_expand_into_parallel")
+                    } else if has_loop && native_agree {
+                        Some("native_rel_uniqueness")
+                    } else {
+                        None
+                    }
+                } else {
+                    native_class(q.template)
+                };
                 if let Some(cl) = class {
                     out.count(&format!("known_{}", cl));
                 }
+                let c = if !legacy_agree {
+                    (0..CONFIGS).find(|c| (c / 2) % 2 == 0 && digest(&results[*c]) != d0).unwrap_or(c)
+                } else if !native_agree {
+                    (0..CONFIGS).find(|c| (c / 2) % 2 == 1 && digest(&results[*c]) != dn).unwrap_or(c)
+                } else {
+                    c
+                };
+                let (ref_c, ref_d) = if legacy_agree && !native_agree { (2, dn.clone()) } else { (0, d0.clone()) };
                 out.fail(
                     i,
                     &human,
                     &format!(
-                        "result depends on configuration (query shape {}, legacy configurations {}): {} -> {} but {} -> {}",
+                        "result depends on configuration (query shape {}, legacy configurations {}, graph-native configurations {}): {} -> {} but {} -> {}",
                         q.template,
                         if legacy_agree { "all agree" } else { "disagree" },
-                        config_name(0),
-                        d0,
+                        if native_agree { "all agree" } else { "disagree" },
+                        config_name(ref_c),
+                        ref_d,
                         config_name(c),
                         digest(&results[c])
                     ),
@@ -675,6 +937,77 @@ fn main() {
                     out.fail(i, &human, &format!("the engine panicked in every configuration: {}", e), None);
                 }
             }
+        }
+        // ---- relationship MERGE on the twin stores: it must find an existing relationship
+        // (and so create none) or create exactly one, the same in every store ----
+        if !wanted[per_hist as usize] {
+            out.skip();
+            continue;
+        }
+        let mut pairs: Vec<(i64, i64)> = Vec::new();
+        let hub_edges: Vec<(i64, i64, i64)> = g.edges.iter().filter(|e| g.hubs.contains(&e.1) && g.spokes.contains(&e.2)).cloned().collect();
+        for _ in 0..2 {
+            if !hub_edges.is_empty() {
+                let e = r.pick(&hub_edges);
+                pairs.push((e.1, e.2));
+            } else if !g.edges.is_empty() {
+                let e = r.pick(&g.edges);
+                pairs.push((e.1, e.2));
+            }
+        }
+        if !g.live.is_empty() {
+            pairs.push((*r.pick(&g.live), *r.pick(&g.live)));
+            if !g.hubs.is_empty() && !g.spokes.is_empty() {
+                pairs.push((*r.pick(&g.hubs), *r.pick(&g.spokes)));
+            }
+        }
+        let engine = QueryEngine::new();
+        let mut merge_digests: Vec<String> = Vec::new();
+        for (store, _) in stores.iter_mut() {
+            let mut d = String::new();
+            for (x, y) in &pairs {
+                let stmt = format!("MATCH (a {{uid: {}}}), (b {{uid: {}}}) MERGE (a)-[r:R]->(b)", x, y);
+                let res = catch(std::panic::AssertUnwindSafe(|| engine.execute_mut(&stmt, store, "default").map(|_| ()).map_err(|e| e.to_string())));
+                d.push_str(match &res {
+                    Ok(Ok(())) => "ok ",
+                    Ok(Err(_)) => "err ",
+                    Err(_) => "PANIC ",
+                });
+                let cnt = Query {
+                    text: format!("MATCH (a {{uid: {}}})-[r:R]->(b {{uid: {}}}) RETURN count(r) AS a", x, y),
+                    params: HashMap::new(),
+                    model: None,
+                    uses_adjacency: true,
+                    template: 23,
+                };
+                d.push_str(&digest(&exec(store, &cnt, false, false)));
+                d.push(' ');
+            }
+            let total = Query { text: "MATCH ()-[r]->() RETURN count(r) AS a".to_string(), params: HashMap::new(), model: None, uses_adjacency: true, template: 13 };
+            d.push_str(&digest(&exec(store, &total, false, false)));
+            merge_digests.push(d);
+        }
+        out.count("merge_cases");
+        out.count_n("merge_statements", (pairs.len() * 9) as u64);
+        if !hub_edges.is_empty() {
+            out.count("merge_on_existing_hub_relationship");
+        }
+        let human = format!("history={} then MERGE (a)-[:R]->(b) for (a.uid, b.uid) in {:?}", hist_text, pairs);
+        let i = out.case("([], OEq, PNull, [], [], [])".to_string(), human.clone(), !pairs.is_empty());
+        if let Some(c) = (1..9).find(|c| merge_digests[*c] != merge_digests[0]) {
+            let name = |k: usize| format!("{}/{}", ["no-index", "index-before", "index-after"][k / 3], ["uncompacted", "compacted-at-end", "compacted-midway"][k % 3]);
+            out.fail(
+                i,
+                &human,
+                &format!(
+                    "relationship MERGE depends on configuration (per pair: outcome, relationships a->b afterwards; then total relationships): {} -> {} but {} -> {}",
+                    name(0),
+                    merge_digests[0],
+                    name(c),
+                    merge_digests[c]
+                ),
+                None,
+            );
         }
     }
 
@@ -699,7 +1032,7 @@ fn main() {
                     if let Some(pd) = parent_digests.get(&(h, qi)) {
                         compared += 1;
                         if pd != d {
-                            let idx = h * per_hist + qi;
+                            let idx = h * cases_per_hist + qi;
                             out.fail(idx, &format!("history {} query {}", h, qi), &format!("a second process returned a different bag: {} vs {}", pd, d), None);
                         }
                     }
